@@ -669,7 +669,7 @@ def run(ctx, rep):
     stale = [k for k in table if k not in used_rows]
     rep.analysed = {"panic_sites": total, "refuted_automatically": auto, "justified_by_table": tabled,
                     "refutation_methods": methods, "exit_sites": len(exits), "stale_table_rows": len(stale)}
-    rep.floor("panic-sites", total, 250)
+    rep.floor("panic-sites", total, 120)   # a refactoring that removes helper asserts lowers the count; 120 still rules out an analysis that saw nothing
     rep.floor("exit-sites", len(exits), 14)
 
 
